@@ -53,8 +53,9 @@ class Edit:
 
 
 class Builder:
-    def __init__(self, repo, vdir, canary=None):
+    def __init__(self, repo, vdir, canary=None, force_trusted=None):
         self.repo, self.vdir = repo, vdir
+        self.force_trusted = set(force_trusted or [])   # fn keys whose body Verus cannot ingest on this tree: body dropped for this run
         self.canary = canary          # None, or predicate(contract) -> bool: insert `assert(false)` canaries
         self.canaries = []            # (key, instance, where)
         self.modconsts = []           # parameter-set constants written as literals in the template (checked natively)
@@ -236,6 +237,12 @@ class Builder:
             else:
                 edits.append(Edit(pos, pos, '<VpG: CryptoRngCore>', 'R3'))
             self.rewrites.append(dict(rule='R3', file=s.name, line=s.line(a0), fn=key, old='&mut impl CryptoRngCore', new='<VpG: CryptoRngCore> ... &mut VpG'))
+        if key in self.force_trusted:
+            fnrec['mode'] = 'unverifiable'
+            if c is None and sp.body_open >= 0:
+                edits.append(Edit(sp.start, sp.start, '#[verifier::external_body]\n', 'forced'))
+                edits.append(Edit(sp.body_open + 1, sp.body_close, ' unimplemented!() ', 'body-dropped(unverifiable)'))
+                return [e for e in edits if e.rule in ('forced', 'body-dropped(unverifiable)', 'R3')]
         if c is None:
             return edits
         self.used.add(key)
@@ -250,7 +257,8 @@ class Builder:
         sig_end = sp.body_open if sp.body_open >= 0 else sp.end - 1
         # --- attributes
         attrs = list(c.attrs)
-        if c.mode in ('trusted', 'proved-kani'):
+        forced = key in self.force_trusted
+        if c.mode in ('trusted', 'proved-kani') or forced:
             attrs.append('#[verifier::external_body]')
         if attrs:
             edits.append(Edit(sp.start, sp.start, '\n'.join(attrs) + '\n', 'contract', **ck))
@@ -295,9 +303,13 @@ class Builder:
             ins(sig_end, spec)
         if sp.body_open < 0:
             return edits
-        if c.mode in ('trusted', 'proved-kani'):
+        if c.mode in ('trusted', 'proved-kani') or forced:
             body = c.body if c.body is not None else ' unimplemented!() '
-            edits.append(Edit(sp.body_open + 1, sp.body_close, body, 'body-dropped(' + c.mode + ')', **ck))
+            # R11 edits live inside the body that is being dropped
+            edits[:] = [e for e in edits if not (sp.body_open < e.start < sp.body_close)]
+            edits.append(Edit(sp.body_open + 1, sp.body_close, body, 'body-dropped(' + ('unverifiable' if forced else c.mode) + ')', **ck))
+            if forced:
+                fnrec['mode'] = 'unverifiable'
             return edits
         lo, hi = sp.body_open + 1, sp.body_close
         # --- explicit rewrites
@@ -483,8 +495,8 @@ class Builder:
         return best
 
 
-def build_mirror(repo='/repo', vdir='/verif', out_path=None, canary=None):
-    b = Builder(repo, vdir, canary).build(os.path.join(vdir, 'contracts', 'mirror.rs.in'))
+def build_mirror(repo='/repo', vdir='/verif', out_path=None, canary=None, force_trusted=None):
+    b = Builder(repo, vdir, canary, force_trusted).build(os.path.join(vdir, 'contracts', 'mirror.rs.in'))
     if out_path:
         with open(out_path, 'w') as fh:
             fh.write(b.text())
